@@ -74,7 +74,7 @@ def run_threads(run, sc, tag, files, inputs, schedule, clear_cache, fine=False, 
         open(os.path.join(d, name), "w", encoding="utf-8").write(PR.doc_text(c, flags))
     before = PR.snapshot(d)
     if clear_cache:
-        cached_parse_nodeid.cache_clear()
+        getattr(cached_parse_nodeid, "cache_clear", lambda: None)()
     ctl = PR.Ctl()
     sch = PR.Scheduler(len(inputs))
     ctl.sched = sch
